@@ -108,13 +108,28 @@ func ZZ_C03_daemon_reports_deleted() {
 	}
 	cl := &zzRuntimeCRClient{rt: rt, getErr: zz.Bool("get.fails"), saveErr: zz.Bool("save.fails")}
 	r := &CRDV2{client: cl, nodeName: "n1", deletedPods: map[string]*networkv1beta1.RuntimePodStatus{}}
-	// the DELs the daemon processed since the last report
+	// the DELs the daemon processed since the last report; a DEL may be followed, before the report is
+	// flushed, by an answered ADD for the same pod instance (the runtime re-created the sandbox): that
+	// cancels the pending report - the pod's last CNI operation is an ADD
+	cl.node = &networkv1beta1.Node{}
+	cl.node.Spec.ENISpec = &networkv1beta1.ENISpec{}
+	cl.node.Status.NetworkInterfaces = map[string]*networkv1beta1.NetworkInterface{"eni-1": {ID: "eni-1", Status: "InUse", IPv4CIDR: "10.0.0.0/24", IPv4: map[string]*networkv1beta1.IP{}}}
 	del := make([]bool, len(uids))
 	for i, u := range uids {
 		del[i] = zz.Bool(u + ".del.processed")
 		if del[i] {
 			_, err := r.Release(context.Background(), &daemon.CNI{PodID: "ns/" + u, PodUID: u}, &LocalIPResource{})
 			zz.Assert(err == nil, "a DEL is always accepted by the centralised backend")
+			if zz.Bool(u + ".readded.before.flush") {
+				ip := "10.0.0." + string(rune('5'+i))
+				cl.node.Status.NetworkInterfaces["eni-1"].IPv4[ip] = &networkv1beta1.IP{IP: ip, Status: networkv1beta1.IPStatusValid, PodID: "ns/" + u, PodUID: u}
+				n := zz.Spawned()
+				ch, _ := r.Allocate(context.Background(), &daemon.CNI{PodNamespace: "ns", PodName: u, PodID: "ns/" + u, PodUID: u}, &LocalIPRequest{})
+				zz.RunSpawned(n)
+				resp := <-ch
+				zz.Assert(resp != nil && resp.Err == nil, "the re-created sandbox gets its address")
+				del[i] = false
+			}
 		}
 	}
 	err := r.syncNodeRuntime(context.Background())
